@@ -21,19 +21,18 @@ CLAIM = dict(
          "Phi polynomial in theta and DPhi its formal derivative (proved to be the derivative: first-order Taylor expansion with polynomial remainder; sum, Leibniz, "
          "power rules) -- no chain rule assumed; the closures and initial vectors the *_from_graph wrappers build from rho are the polynomial (1-rho)P_k with its formal "
          "derivatives and the manifold point Phi(1,0); preferential-mixing EBCM with P(k'|k)=k'P(k')/<k> = EBCM, continuous (vector fields on the invariant subspace) "
-         "and discrete (lock-step for every number of steps).  EBCM -> SIR compact effective degree: the same identity (binomial change of variables Phi_ced) is "
-         "evaluated numerically on the Python functions on every run, not proved.",
+         "and discrete (lock-step for every number of steps); EBCM -> SIR compact effective degree (S_kappa = N sum_k c_k C(k,kappa) u^kappa v^(k-kappa), proved through the binomial "
+         "moments and the absorption identity).  The full (s,i) effective degree model is compared with EBCM by curves only.",
     design='DESIGN.md section 4, C07; section 8.2 row C07',
     technique='Coq proof over translator-generated right-hand sides + hand-written model of the dict-based routines tied by point evaluation + numerical re-evaluation of every identity on the Python functions',
     note='part of C07 (harness/c07.py); cited: Picard-Lindeloef uniqueness for the lift to curves (continuous-time models only)')
 
 COMP = 'c07x'
 # what Props/C07x.v reaches; the rest of the hierarchy clause is carried by the numerical identities below and the curve oracles of harness/c07.py
-PROVED_STATE = {'proved': [],
-                'numerical': ['SIR compact effective degree vs EBCM: vector-field identity under Phi_ced and the wrapper\'s initial point, numerical on every run (not proved)',
-                              'SIR effective degree (full (s,i) model) vs EBCM: curves only',
-                              'initial conditions of SIR_effective_degree_from_graph / SIR_compact_effective_degree_from_graph']}
-KINDS = ('x_spec', 'x_wrapper')
+PROVED_STATE = {'proved': ['EBCM -> SIR compact effective degree (binomial change of variables Phi_ced, formal derivative) and the wrapper\'s initial point Phi_ced(1,0)',
+                           'heterogeneous mean-field SIR on one degree class -> homogeneous mean-field SIR without the assumed chain rule'],
+                'numerical': ['SIR effective degree (full (s,i) model) vs EBCM: curves only',
+                              'initial conditions of SIR_effective_degree_from_graph']}
 
 
 # ------------------------------------------------------------------ closed forms (L0, generic arithmetic) ----
